@@ -281,6 +281,8 @@ def worker_main(argv):
     t0 = time.time()
     mod = load_prop(prop_id)
     mon = Mon(prop_id)
+    if os.environ.get("VERIF_LOGGING") == "default":
+        mon.count("worker_processes_with_default_debug_logging")
     probe = LineProbe(getattr(mod, "ANCHORS", []))
     try:
         probe.start()      # before the import, so that module-level lines of the anchor files count
@@ -335,6 +337,8 @@ def _run_shard(prop_id, tier, seed, shard, nshards, workdir, timeout, replay=Non
         cmd.append(replay)
     e = dict(os.environ)
     e["PYTHONHASHSEED"] = hashseed
+    if shard % 4 == 1 and "VERIF_LOGGING" not in e:
+        e["VERIF_LOGGING"] = "default"       # every fourth worker runs with the package's default DEBUG logging
     e["VERIF_REPO"] = env.REPO
     e["NO_PROXY"] = "*"
     e["no_proxy"] = "*"
